@@ -427,7 +427,26 @@ def recipe_singleton_set(rng):
     return sc, pre
 
 
-RECIPES = {"signal_veto": recipe_signal_veto, "singleton_set": recipe_singleton_set, "on_demand_stop": recipe_on_demand_stop, "untracked_zombies": recipe_untracked_zombies,
+def recipe_pattern_subset(rng):
+    """start / stop / restart addressed by a glob pattern that matches only some of the watchers, while a watcher
+    outside the pattern has been stopped on purpose (or is running): the request must leave it alone and treat the
+    matched ones in priority order"""
+    prios = rng.choice([[0, 0, 0], [2, 1, 3], [1, 1, 5], [9, 5, 1]])
+    sc = {"arb": {"warmup_ms": rng.choice([0, 0, 100])}, "behav": [{"term": ["obey", 0], "kill_lat": 0, "spawn_ms": 1}],
+          "watchers": [_w("web1", np=rng.choice([1, 2]), priority=prios[0]), _w("web2", np=1, priority=prios[1]),
+                       _w("db", np=rng.choice([1, 2]), priority=prios[2])]}
+    pre = [["start"]] + [["wake"]] * 8
+    if rng.random() < 0.8:
+        pre += [_req("stop", "q1", name="db", waiting=True)] + [["wake"]] * 2
+    if rng.random() < 0.3:
+        pre += [_req("stop", "q2", name="web2", waiting=True)] + [["wake"]] * 2
+    pat = rng.choice(["web*", "web?", "w*", "web*", "*b?", "d*"])
+    cmd = rng.choice(["restart", "restart", "restart", "start", "stop"])
+    pre += [_req(cmd, "q3", name=pat, match="glob", waiting=rng.random() < 0.6)] + [["wake"]] * 8 + [["check"], ["wake"]]
+    return sc, pre
+
+
+RECIPES = {"pattern_subset": recipe_pattern_subset, "signal_veto": recipe_signal_veto, "singleton_set": recipe_singleton_set, "on_demand_stop": recipe_on_demand_stop, "untracked_zombies": recipe_untracked_zombies,
            "topup_start": recipe_topup_start}
 
 
